@@ -72,7 +72,7 @@ def report(rng, v, path=None):
     return f"0;255;3;0;2;{v}\n" if path == 0 else f"0;255;0;0;18;{v}\n"
 
 
-def gen(seed: int, i: int, tier: str) -> dict:
+def _gen(seed: int, i: int, tier: str) -> dict:
     rng = random.Random(f"C05:{seed}:{i}")
     ng = len(GRID)
     if tier == "thorough" and i < 2 * ng:
@@ -119,7 +119,17 @@ def gen(seed: int, i: int, tier: str) -> dict:
     return {"cfg": {"pin": None}, "ops": ops}
 
 
+def gen(seed: int, i: int, tier: str) -> dict:
+    if i % 4 == 3:
+        from vsim.universe import gen_universe
+        return gen_universe(random.Random(f"U:C05:{seed}:{i}"), tier)
+    return _gen(seed, i, tier)
+
+
 def run(scn):
+    if scn.get("kind") == "universe":
+        from vsim.universe import run_universe
+        return run_universe(scn, PROP, ASPECTS, keep=lambda aspect, site: aspect == "version" or "UnsupportedMessageError" in site)
     st = {"reports": 0, "prev_proto": None}
 
     def on_step(i, op, obs, disc, model, w, res):
